@@ -194,8 +194,9 @@ theorem shrink_length_eq (wire : Bytes) (val : Nat) :
           have e3 := writeTlNumInto_size h3
           have m3 : tlNumSize (size - val) ≤ tlNumSize size := tlNumSize_mono (by omega)
           by_cases heq : nsl = sl
-          · rw [if_pos (by omega), if_pos heq, slice_negUpper w1 0 val 0 _ rfl rfl]; rfl
-          · rw [if_neg (by omega), if_neg heq]
+          · simp (disch := omega) only [if_pos, if_neg]
+            rw [slice_negUpper w1 0 val 0 _ rfl rfl]; rfl
+          · simp (disch := omega) only [if_pos, if_neg]
             cases h4 : writeTlNumInto typ w1 (sl - nsl) with
             | error e => rw [write_tl_num_error _ _ rfl (by omega) (by omega) h4]; rfl
             | ok p4 =>
